@@ -1,9 +1,7 @@
 package keeper
 
 import (
-	"encoding/binary"
 	"fmt"
-	"strings"
 
 	"github.com/tendermint/tendermint/libs/log"
 
@@ -107,20 +105,18 @@ func (k Keeper) IterateConsensusStates(
 
 	defer iterator.Close()
 	for ; iterator.Valid(); iterator.Next() {
-		key := iterator.Key()
-
-		keySplit := strings.Split(string(key), "/")
-		// consensus key is in the format "clients/<chainName>/consensusStates/<height>"
-		if len(keySplit) != 4 || keySplit[2] != string(host.KeyConsensusStatePrefix) {
+		// consensus key is in the format "clients/<chainName>/consensusStates/<height>".
+		// The height is binary (it may contain '/'), so it is parsed at fixed offsets.
+		chainName, path, ok := host.ParseClientKey(iterator.Key())
+		if !ok {
 			continue
 		}
-		chainName := keySplit[1]
-		//revinum := sdk.BigEndianToUint64(key[35:43])
-		//revihei := sdk.BigEndianToUint64(key[44:])
-		heightBytes := keySplit[3]
-		revisionUint64 := binary.BigEndian.Uint64([]byte(heightBytes[:8]))
-		heightUint64 := binary.BigEndian.Uint64([]byte(heightBytes[8:]))
-		height := types.MustParseHeight(fmt.Sprintf("%d-%d", revisionUint64, heightUint64))
+		revisionUint64, heightUint64, ok := host.ParseConsensusStateKey(path)
+		if !ok {
+			// ignore client states and all metadata keys
+			continue
+		}
+		height := types.NewHeight(revisionUint64, heightUint64)
 		consensusState := k.MustUnmarshalConsensusState(iterator.Value())
 
 		consensusStateWithHeight := types.NewConsensusStateWithHeight(height, consensusState)
@@ -247,15 +243,14 @@ func (k Keeper) IterateClients(
 
 	defer iterator.Close()
 	for ; iterator.Valid(); iterator.Next() {
-		keySplit := strings.Split(string(iterator.Key()), "/")
-		if keySplit[len(keySplit)-1] != host.KeyClientState {
+		// key is clients/{chainName}/clientState
+		chainName, path, ok := host.ParseClientKey(iterator.Key())
+		if !ok || string(path) != host.KeyClientState {
 			continue
 		}
 		clientState := k.MustUnmarshalClientState(iterator.Value())
 
-		// key is xibc/{clientid}/clientState
-		// Thus, keySplit[1] is chainName
-		if cb(keySplit[1], clientState) {
+		if cb(chainName, clientState) {
 			break
 		}
 	}
